@@ -57,7 +57,7 @@ def type_tokens(f, sp, proto=None):
         return ['char']
     if k == 'fix':
         if f.zchar:
-            if sp.pick('zchar_as_pad'):
+            if getattr(f, 'pad', None) is None and sp.pick('zchar_as_pad'):
                 return ['char[', str(f.n), ']']
             return ['zchar[', str(f.n), ']']
         return ['char[', str(f.n), ']']
@@ -74,7 +74,7 @@ def pad_attr_tokens(f, sp, used_zchar_as_pad):
     if f.kind == 'fix' and f.zchar and used_zchar_as_pad:
         out += ['@rightPad', '(', PADCHARS['nul'], ')', NL]
     pad = getattr(f, 'pad', None)
-    if pad is not None and not (f.kind == 'fix' and f.zchar):
+    if pad is not None:
         side, ch = pad
         t = ['@%sPad' % side, '(']
         if ch is not None:
